@@ -72,6 +72,13 @@ func (env *SpecEnv) quantSort(ty string) (string, types.Type) {
 		return "Str", types.Typ[types.String]
 	case "addr":
 		return "Addr", nil
+	case "bytes":
+		return bytesSort(env.e.g()), types.NewSlice(types.Typ[types.Uint8])
+	case "float32":
+		return sortF32, types.Typ[types.Float32]
+	}
+	if _, ok := env.e.g().sliceElem[ty]; ok {
+		return ty, nil
 	}
 	return env.namedSort(ty)
 }
@@ -672,6 +679,60 @@ func (env *SpecEnv) call(x *SExpr) SV {
 		}
 		g.DeclFun(fn, sorts, sortStr)
 		return SV{t: fmt.Sprintf("(%s %s)", fn, strings.Join(as, " ")), sort: sortStr, gt: types.Typ[types.String]}
+	case "itpos", "itlen", "itkey", "itval", "ithas":
+		// ghost view of the (single) KV iterator of the function: position, length, i-th key, i-th raw value
+		var ii *iterInfo
+		for _, x := range env.e.iters {
+			if ii != nil && ii != x {
+				env.fail("%s: more than one iterator in %s", x.id, env.e.fn.Name())
+			}
+			ii = x
+		}
+		if ii == nil {
+			env.fail("%s: no iterator in scope", x.S)
+			break
+		}
+		bs := bytesSort(g)
+		switch x.S {
+		case "itpos":
+			return SV{t: env.state(ii.pos), sort: "Int"}
+		case "itlen":
+			return SV{t: ii.n, sort: "Int"}
+		case "itkey":
+			return SV{t: fmt.Sprintf("(select %s %s)", ii.keys, argv(0).t), sort: bs}
+		case "itval":
+			return SV{t: fmt.Sprintf("(select %s (select %s %s))", ii.snap, ii.keys, argv(0).t), sort: bs}
+		case "ithas":
+			return SV{t: fmt.Sprintf("(not (%s_nil (select %s %s)))", bs, ii.snap, argv(0).t), sort: "Bool"}
+		}
+	case "klt":
+		g.DeclFun("klt", []string{bytesSort(g), bytesSort(g)}, "Bool")
+		return SV{t: fmt.Sprintf("(klt %s %s)", argv(0).t, argv(1).t), sort: "Bool"}
+	case "keyof": // keyof(Store, k...): the raw key bytes of a typed store entry
+		a := argv(0)
+		if a.st == nil {
+			env.fail("keyof: first argument must be a store")
+			break
+		}
+		var ks []SV
+		for i := 1; i < len(x.Args); i++ {
+			ks = append(ks, argv(i))
+		}
+		return SV{t: env.storeKey(a.st, ks), sort: bytesSort(g)}
+	case "rawhas": // rawhas(Store, keybytes)
+		a := argv(0)
+		if a.st == nil {
+			break
+		}
+		return SV{t: fmt.Sprintf("(not (%s_nil (select %s %s)))", bytesSort(g), env.storeArr(a.st), argv(1).t), sort: "Bool"}
+	case "rawget": // rawget(Store, keybytes): typed value stored under raw key bytes
+		a := argv(0)
+		if a.st == nil {
+			break
+		}
+		vt := env.e.r.v.lookupType(a.st.ValTy)
+		vs := g.SortOf(vt)
+		return SV{t: fmt.Sprintf("(%s (select %s %s))", unmarshalFun(g, vs), env.storeArr(a.st), argv(1).t), sort: vs, gt: vt}
 	case "u64": // machine wrap of a mathematical value to uint64 (what the code's + and - on uint64 compute)
 		return SV{t: fmt.Sprintf("(wrap_u64 %s)", argv(0).t), sort: "Int"}
 	case "i64":
